@@ -42,3 +42,4 @@ package call
 //@ func CallGraph.Analysis
 //@ modifies loopCount, rcall.loopCount, rcall.lastChild
 //@ assert before BuildCallChain#1 loopCount == 0
+//@ assert before BuildRCallChain#1 rcall.loopCount == 0 && rcall.lastChild == ""
